@@ -62,6 +62,7 @@ func Notes(ctx context.Context, client *gitlab.Client, issue *gitlab.Issue) <-ch
 
 			if err != nil {
 				out <- ErrorEvent{Err: err, Time: time.Now()}
+				return
 			}
 
 			for _, note := range notes {
@@ -93,6 +94,7 @@ func LabelEvents(ctx context.Context, client *gitlab.Client, issue *gitlab.Issue
 
 			if err != nil {
 				out <- ErrorEvent{Err: err, Time: time.Now()}
+				return
 			}
 
 			for _, e := range events {
@@ -125,6 +127,7 @@ func StateEvents(ctx context.Context, client *gitlab.Client, issue *gitlab.Issue
 			events, resp, err := client.ResourceStateEvents.ListIssueStateEvents(issue.ProjectID, issue.IID, &opts, gitlab.WithContext(ctx))
 			if err != nil {
 				out <- ErrorEvent{Err: err, Time: time.Now()}
+				return
 			}
 
 			for _, e := range events {
